@@ -109,6 +109,16 @@ class Selection:
         self._seen_k = []
         self._seen_n = []
         c.lib_used.add('SELECTION-THEORY')
+        # lemma (proved on the spot with a fresh index): keep everywhere => count == total;
+        # keep nowhere => count == 0
+        if c.check_feasible:
+            probe = z3.Int(c._name(base + '_probe'))
+            inr = z3.And(probe >= 0, probe < zint(total))
+            kp = zbool(keep(mk_int(probe)))
+            if not c.feasible(z3.And(inr, z3.Not(kp))):
+                c.assume(self.count.z == zint(total))
+            elif not c.feasible(z3.And(inr, kp)):
+                c.assume(self.count.z == 0)
 
     def sel(self, k):
         c = core.ctx()
